@@ -257,6 +257,62 @@ def ownership_rule(repo: Repo, rep: Report, rid: str) -> None:
                 rep.fail(rid, f"{fi.key}:default {norm(dflt)}", "mutable default argument is shared between calls", fi.loc(dflt))
 
 
+
+def _param_stores(fn: ast.FunctionDef, params: set[str]) -> list[ast.AST]:
+    """Stores (attribute / item assignment, setattr / delattr, in-place update calls) on an object the caller handed in, aliases through plain locals included."""
+    alias = set(params)
+    for _ in range(3):
+        for st in ast.walk(fn):
+            if isinstance(st, ast.Assign) and len(st.targets) == 1 and isinstance(st.targets[0], ast.Name) and isinstance(st.value, ast.Name) and st.value.id in alias:
+                alias.add(st.targets[0].id)
+    out: list[ast.AST] = []
+    for x in ast.walk(fn):
+        if isinstance(x, (ast.Attribute, ast.Subscript)) and isinstance(x.ctx, (ast.Store, ast.Del)):
+            r = x.value
+            while isinstance(r, (ast.Attribute, ast.Subscript)):
+                r = r.value
+            if isinstance(r, ast.Name) and r.id in alias:
+                out.append(x)
+        if isinstance(x, ast.Call) and isinstance(x.func, ast.Name) and x.func.id in ("setattr", "delattr") and x.args and isinstance(x.args[0], ast.Name) and x.args[0].id in alias:
+            out.append(x)
+        if isinstance(x, ast.Call) and isinstance(x.func, ast.Attribute) and x.func.attr == "__setattr__" and len(x.args) >= 2 and isinstance(x.args[0], ast.Name) and x.args[0].id in alias:
+            out.append(x)
+    return out
+
+
+def caller_objects_rule(repo: Repo, rep: Report, rid: str) -> None:
+    rep.rule(rid, "a cstruct object never writes on what the caller hands it: no method of class cstruct stores an attribute / item on (or setattr's) one of "
+                  "its parameters - a type class given to add_custom_type is registered as a new subclass made by _make_type, so the same class can be "
+                  "added to several cstruct objects without one registration re-binding the other's type")
+    n = 0
+    for fi in repo.cls("cstruct").methods.values():
+        params = set(fi.params[1:]) | {a.arg for a in fi.node.args.kwonlyargs}
+        if fi.node.args.kwarg is not None:
+            params.add(fi.node.args.kwarg.arg)
+        params -= {fi.self_name}
+        if not params:
+            continue
+        n += 1
+        # the keyword dict itself is a fresh per-call object: storing into it is local; what matters is objects reachable from the caller
+        kw = fi.node.args.kwarg.arg if fi.node.args.kwarg is not None else None
+        stores = [x for x in _param_stores(fi.node, params - ({kw} if kw else set()))]
+        rep.check(not stores, rid, f"{fi.key}:caller-objects", "stores nothing on its arguments",
+                  f"{fi.qualname} writes on its argument ('{short(stores[0], 60) if stores else ''}'): an object the caller owns - e.g. a custom type class shared by "
+                  "two cstruct objects - is re-bound by the second registration, which changes the types of the first", fi.loc(stores[0]) if stores else fi.loc())
+    rep.floor(rid, "cstruct methods taking arguments", n, 10)
+    act = repo.func("cstruct.py", "cstruct.add_custom_type")
+    from ..util import resolve_local
+
+    regs = [c for c in walk_body(act.node.body) if isinstance(c, ast.Call) and call_name(c) == "add_type" and len(c.args) >= 2]
+    ok = bool(regs) and all(isinstance(resolve_local(act.node, c.args[1]), ast.Call) and call_name(resolve_local(act.node, c.args[1])) == "_make_type" for c in regs)
+    rep.check(ok, rid, f"{act.key}:registers-subclass", "registers the class _make_type creates", "add_custom_type registers something other than a class made by "
+              "_make_type: the caller's own class would be bound to this cstruct object (cs, size, alignment set on it), so adding it to a second cstruct object "
+              "changes the first", act.loc(regs[0]) if regs else act.loc())
+    w = ast.parse("def f(self, name, type_, **kwargs):\n    t = type_\n    for k, v in kwargs.items():\n        setattr(t, k, v)\n    type_.cs = self\n").body[0]
+    if len(_param_stores(w, {"name", "type_"})) != 2:
+        raise AnalysisError(f"{rid}: the parameter-store matcher no longer recognises its witness")
+
+
 def run(repo: Repo, rep: Report, tier: str) -> None:
     defaults_rule(repo, rep, "C14.R1")
     replicate_rule(repo, rep, "C14.R2")
@@ -283,4 +339,9 @@ def run(repo: Repo, rep: Report, tier: str) -> None:
     fresh_generation_rule(repo, rep, "C14.R9")
     from .share import share_rules
 
+    from .c08 import meta_call_rule
+
+    # T(v) for a value v of type T builds a new object: handing v back makes two names for one mutable value
+    meta_call_rule(repo, rep, "C14.R11")
+    caller_objects_rule(repo, rep, "C14.R12")
     share_rules(repo, rep, tier, "c15", {"C15.R5": "C14.R10"}, "a descriptor or accessor that keeps per-call state on itself is state shared by every object of every cstruct")
